@@ -337,7 +337,7 @@ def check_c(ck, repo):
 FIT_METHODS = {"fit", "fit_transform", "fit_predict", "partial_fit"}
 
 
-def check_d(ck, repo):
+def check_d(ck, repo, rule="C02.d"):
     n_clone = 0
     eff = effects_for(repo)
     done = set()
@@ -378,14 +378,14 @@ def check_d(ck, repo):
                 done.add(key)
                 if kind == "clone":
                     n_clone += 1
-                    ck.holds("C02.d", fi, c, "receiver of .fit is a clone / fresh object")
+                    ck.holds(rule, fi, c, "receiver of .fit is a clone / fresh object")
                 elif kind == "hyper":
                     ex = D_EXEMPT.get((ci.name, attr)) or (D_EXEMPT.get((fi.cls.name, attr)) if fi.cls else None)
                     if ex:
-                        ck.holds("C02.d", fi, c, f"exempt ({ci.name}.{attr}): {ex}", nontrivial=False)
+                        ck.holds(rule, fi, c, f"exempt ({ci.name}.{attr}): {ex}", nontrivial=False)
                     else:
                         ck.violated(
-                            "C02.d",
+                            rule,
                             fi,
                             c,
                             f"{ci.name}: the estimator stored in hyper-parameter '{attr}' is fitted in place (no clone): fit changes what get_params reports and a failing fit leaves it half-trained",
@@ -411,6 +411,21 @@ def _origin(ctx, fi, recv: ast.AST, at_ast: ast.AST, seen, depth=0) -> Optional[
     if is_self_attr(recv):
         if fi.cls is not None and fi.cls.qualname in ctx["mro"] and recv.attr in hp:
             return ("hyper", recv.attr)
+        if fi.cls is not None and fi.cls.qualname not in ctx["mro"]:
+            # an attribute of a helper object (a tree node, ...): follow the
+            # constructor parameter it was stored from to the construction sites
+            init = fi.cls.methods.get("__init__")
+            if init is None or ("hattr", fi.cls.qualname, recv.attr) in seen:
+                return None
+            seen.add(("hattr", fi.cls.qualname, recv.attr))
+            res = None
+            for n in own_nodes(init.node):
+                if isinstance(n, ast.Assign) and any(is_self_attr(t, recv.attr) for t in assign_targets(n)):
+                    o = _origin(ctx, init, n.value, n, seen, depth + 1)
+                    if o and o[0] == "hyper":
+                        return o
+                    res = res or o
+            return res
         if fi.cls is None or fi.cls.qualname not in ctx["mro"] or ("attr", recv.attr) in seen:
             return None
         seen.add(("attr", recv.attr))
